@@ -357,7 +357,7 @@ def Cst.cf : Cst → Bool
   | .set _ _ its _ => its.cf
   | .paren its _ => its.cf
   | .app f cs _ a => f.cf && cs.isEmpty && a.cf
-  | .kw .. => false     -- the normaliser `Cst.norm` does not cover `with` / `assert` / select yet
+  | .kw .. => false     -- the normaliser `Cst.norm` does not cover `with` / `assert` yet
   | .sel e c1 _ _ _ => e.cf && c1.isEmpty
   | .selOr e c1 _ _ _ c2 _ _ d => e.cf && c1.isEmpty && c2.isEmpty && d.cf
   | .lam _ c1 _ c2 _ b => c1.isEmpty && c2.isEmpty && b.cf
